@@ -3,6 +3,8 @@
 id=$1; prop=$2; tier=${3:-quick}
 cd /repo && git status --short | grep -v '^??' && { echo "/repo not clean"; exit 2; }
 git -C /repo apply /verif/seeded/$id/patch.diff || exit 2
+cp /verif/evidence/$prop.json /verif/_build/evidence_$prop.bak 2>/dev/null
 (cd /verif && ./run.sh $prop $tier > /verif/_build/seed_$id.$prop.log 2>&1; echo "exit=$?" >> /verif/_build/seed_$id.$prop.log)
 git -C /repo checkout -- .
+cp /verif/_build/evidence_$prop.bak /verif/evidence/$prop.json 2>/dev/null
 grep -E "VIOLATION|KNOWN|exit=|INFRA" /verif/_build/seed_$id.$prop.log | head -5
